@@ -643,7 +643,7 @@ fn main() {
         ck.run(
             Section::enumerate(
                 "update-section-flips",
-                "exhaustive: every single-bit flip of bytes [0..23) of every entry of two update sections (5 entries; 30 entries over two pages with re-used keys, tombstones and non-resident statuses); through UpdateSection::from_bytes + search / all_entries",
+                "exhaustive: every single-bit flip of bytes [0..23) of every entry of four update sections (5 entries; 30 entries over two pages with re-used keys, tombstones and non-resident statuses; 190 and 400 entries = 10 and 20 pages, beyond one 8-page sync block); through UpdateSection::from_bytes + search / all_entries",
                 move || {
                     let arts = arts.clone();
                     Box::new(arts.into_iter().flat_map(|n| all_flips(total_of(n, EncRegion::Pages)).map(move |edit| ArtEdit { art: n.into(), edit })))
@@ -666,7 +666,7 @@ fn main() {
         ck.run(
             Section::enumerate(
                 "idx-loader-flips",
-                "exhaustive: every single-bit flip of bytes [0..23) of every update-section entry of two saved .idx files (6 sorted + 8 update entries incl. an override and two tombstones; 0 sorted + 4 update entries); through IndexManager::load_index + lookup / iter_entries",
+                "exhaustive: every single-bit flip of bytes [0..23) of every update-section entry of three saved .idx files (6 sorted + 8 update entries incl. an override and two tombstones; 0 sorted + 4 update entries; 4 sorted + 188 update entries over 9 pages); through IndexManager::load_index + lookup / iter_entries",
                 move || {
                     let arts = arts.clone();
                     Box::new(arts.into_iter().flat_map(|n| all_flips(total_of(n, EncRegion::Pages)).map(move |edit| ArtEdit { art: n.into(), edit })))
@@ -817,6 +817,16 @@ fn main() {
             caches::check_big,
         )
         .shards(10),
+    );
+
+    ck.run(
+        Section::enumerate(
+            "ml-put-during-validating-read",
+            "MultiLayerCacheImpl (2 / 3 layers, Md5 / Ngdp hooks, slowest layer holding nothing / the good value / a corrupted copy): at the n-th scheduling point (n = 0..10) a validating read passes inside the layers, another thread completes a plain put of bytes that do not hash to the content key; the read's result must still hash to the key",
+            || Box::new(caches::race_cases().into_iter()),
+            caches::check_race,
+        )
+        .shards(16),
     );
 
     drop(quiet);
